@@ -232,8 +232,9 @@ def check_passthrough(rep, http, cfg):
             rv = s['rv']
             if rv['k'] != 'discr' or not path_matches(rv['a'].get('adt'), 'crux_http::protocol::HttpResult'):
                 continue
-            if path_matches(f.assoc.get('trait'), 'core::convert::From') or 'protocol' in f.npath.split('::')[1:2] and f.name == 'from':
-                continue
+            if (path_matches(f.assoc.get('trait'), 'core::convert::From') or 'protocol' in f.npath.split('::')[1:2] and f.name == 'from') and \
+                    not norm(f.locals[1]).startswith('crux_http::protocol::HttpResult'):
+                continue       # (a conversion OUT of HttpResult — `impl From<HttpResult> for crate::Result<..>` used by an endpoint — is a site)
             n += 1
             scrut = rv['a']['l']
             # aggregates Result::Err whose operand originates from the Err payload of the scrutinee
